@@ -64,6 +64,8 @@ FRAGMENT_NAMES = [
     "T", "NL", "T_NL_T", "VAR", "VAR_OPEN", "COMMENT", "TAG", "TAG_DQ", "TAG_SQ", "TAG_DQ_CLOSE_INSIDE", "TAG_SQ_VARCLOSE_INSIDE",
     "TAG_DQ_ESCAPED", "TAG_MULTILINE_DQ", "TAG_DQ_DQ", "VERBATIM", "ENDVERBATIM", "VERBATIM_NAMED", "TAG_DQ_OPEN", "TAG_OPEN",
     "TAG_DQ_CLOSE_NL_INSIDE", "VERBATIM_DQ", "ENDVERBATIM_DQ", "TAG_SQ_CLOSE_INSIDE",
+    "TAG_DQ_ENDS_ESC_BACKSLASH", "TAG_SQ_ENDS_ESC_BACKSLASH",
+    "VERBATIM_TAB_DQ", "VERBATIM_NL_DQ", "ENDVERBATIM_TAB_DQ", "ENDVERBATIM_NL_DQ",
 ]
 # every sequence of exactly L+1 fragments over this sub-alphabet is added to the full enumeration <= L
 DEEP = ["T", "NL", "VAR", "TAG", "TAG_DQ", "TAG_DQ_CLOSE_INSIDE", "TAG_MULTILINE_DQ", "TAG_DQ_CLOSE_NL_INSIDE", "VERBATIM", "ENDVERBATIM", "TAG_DQ_OPEN"]
@@ -95,6 +97,15 @@ def alphabet(seed: int):
         '{%% verbatim "%s" %%}' % q,
         '{%% endverbatim "%s" %%}' % q,
         "{%% %s '%s%%}%s' %%}" % (a, q, r),
+        # a string whose closing quote follows an escaped backslash (even run of backslashes), both quote kinds
+        '{%% %s "%s\\\\" %%}' % (a, q),
+        "{%% %s '%s\\\\' %%}" % (a, q),
+        # `verbatim` / `endverbatim` separated from a quoted name by non-space whitespace: stock Django enters
+        # verbatim mode only for contents[:9] in ("verbatim", "verbatim "), i.e. NOT here
+        '{%% verbatim\t"%s" %%}' % q,
+        '{%% verbatim\n"%s" %%}' % q,
+        '{%% endverbatim\t"%s" %%}' % q,
+        '{%% endverbatim\n"%s" %%}' % q,
     ]
     assert len(A) == len(FRAGMENT_NAMES)
     return A
@@ -345,6 +356,12 @@ def _engines(tag_name: str):
     return _ENGINES
 
 
+def _exc_kind(e):
+    from django.template.exceptions import TemplateSyntaxError
+
+    return "TSE" if isinstance(e, TemplateSyntaxError) else type(e).__name__
+
+
 def route_case(src: str, dotall: bool, tag_name: str):
     """Template(src) through both engines vs Django's Parser on the reference tokens."""
     from types import SimpleNamespace
@@ -364,12 +381,20 @@ def route_case(src: str, dotall: bool, tag_name: str):
         try:
             Parser(rtoks, eng.template_libraries, eng.template_builtins, Origin(UNKNOWN_SOURCE)).parse()
             exp = ("ok",)
-        except TemplateSyntaxError as e:
+        except Exception as e:
+            # TemplateSyntaxError, or whatever a stock compile function raises on the stock stream (e.g. the
+            # AttributeError of `{% verbatim<TAB>"q" %}{{ v }}{% endverbatim %}`: no verbatim mode, so the
+            # verbatim tag renders a VariableNode at compile time); Parser.error() put `.token` on it
             tok = e.token
             fake = SimpleNamespace(source=src, origin=Origin(UNKNOWN_SOURCE))
             dbg = Template.get_exception_info(fake, e, tok)
-            exp = ("TSE", str(e), (tok.token_type.name, tok.contents, tok.position, tok.lineno), dbg)
-        info["cls"] = exp[0] if exp[0] == "ok" else re.sub(r"\d+", "N", exp[1]).split(":")[0][:40]
+            exp = (_exc_kind(e), str(e), (tok.token_type.name, tok.contents, tok.position, tok.lineno), dbg)
+        if exp[0] == "ok":
+            info["cls"] = "ok"
+        elif exp[0] == "TSE":
+            info["cls"] = re.sub(r"\d+", "N", exp[1]).split(":")[0][:40]
+        else:
+            info["cls"] = "stock-raises-" + exp[0]
     else:
         info["cls"] = "agnostic"
     for dbg_flag in (True, False):
@@ -380,12 +405,13 @@ def route_case(src: str, dotall: bool, tag_name: str):
             got = ("ok",)
         except _Hang:
             return ("route-hang", f"Template(src) did not return within {HANG_SECONDS} s"), info
-        except TemplateSyntaxError as e:
-            tok = getattr(e, "token", None)
-            got = ("TSE", str(e), (tok.token_type.name, tok.contents, tok.position, tok.lineno) if tok is not None else None,
-                   getattr(e, "template_debug", None))
         except Exception as e:
-            return ("route-exception", f"Template(src) raised {type(e).__name__}: {e}"), info
+            tok = getattr(e, "token", None)
+            got = (_exc_kind(e), str(e), (tok.token_type.name, tok.contents, tok.position, tok.lineno) if tok is not None else None,
+                   getattr(e, "template_debug", None))
+            if agnostic and got[0] != "TSE" and tok is None:
+                # not raised by a tag's compile function (Parser.error() would have attached the token): the lexer crashed
+                return ("route-exception", f"Template(src) raised {type(e).__name__}: {e}"), info
         finally:
             signal.setitimer(signal.ITIMER_REAL, 0)
         info["obs"] = got[:3]
@@ -483,7 +509,7 @@ def _worker(w, W, payload):
                         problem, info = route_case(src, dotall, tag_name)
                         agg.extra[pre + "transitions"] += 2
                         agg.extra[pre + "cls:" + info["cls"]] += 1
-                        if info["cls"] not in ("agnostic", "ok") and dotall:
+                        if info["cls"] not in ("agnostic", "ok") and not info["cls"].startswith("stock-raises-") and dotall:
                             agg.extra[pre + "nontrivial"] += 1
                     if info["obs"] is not None:
                         agg.observed.add((part, hash(repr(info["obs"])) & 0xFFFFFFFFFFFF))
